@@ -144,7 +144,9 @@ func TestC13(t *testing.T) {
 		var dumpAfterFirst, firstDecode string
 		encs, lenBetween, viaContainer := 0, false, false
 		sawLenSinceEnc := false
-		rep := func() map[string]any { return map[string]any{"kind": gv.kind, "history": hist, "first_encoding": hx(firstEnc)} }
+		rep := func() map[string]any {
+			return map[string]any{"kind": gv.kind, "history": hist, "first_encoding": hx(firstEnc)}
+		}
 		for i := 0; i < nops; i++ {
 			op := gen.Pick(rt, "op", 4)
 			if i == 0 && rapid.Bool().Draw(rt, "encode_first") {
